@@ -1,5 +1,7 @@
+import sys
+
 from bardolph.lib import i_lib
-from bardolph.lib.injection import bind
+from bardolph.lib.injection import bind_instance
 
 class StdOutOutput(i_lib.Output):
     def __init__(self):
@@ -18,8 +20,10 @@ class StdOutOutput(i_lib.Output):
 
     def flush(self):
         if self._line_pending:
-            self.newline()
+            sys.stdout.write('\n')
+            self._line_pending = False
+        sys.stdout.flush()
 
 def configure():
-    bind(StdOutOutput).to(i_lib.Output)
+    bind_instance(StdOutOutput()).to(i_lib.Output)
 
